@@ -180,7 +180,10 @@ Qed.
 Definition zsig (s : N * N) : bool := N.eqb (snd s) 0.
 
 Lemma filter_zeg_sig l : length (filter zsig (map sig l)) = length (filter zeg l).
-Proof. induction l as [|h l IH]; cbn [map filter]; [reflexivity|]. unfold zsig at 1, zeg at 1, sig. cbn [snd]. destruct (N.eqb (hf_eg h) 0); cbn [length]; lia. Qed.
+Proof.
+  induction l as [|h l IH]; [reflexivity|]. cbn [map filter].
+  replace (zsig (sig h)) with (zeg h) by reflexivity. destruct (zeg h); cbn [length]; rewrite IH; reflexivity.
+Qed.
 
 Lemma sol_cost_sigs segs sol src dst :
   peer_sig_distinctb segs = true ->
@@ -229,7 +232,7 @@ Proof.
     apply edges_fold_pure in Hst as (_ & _ & Hhops & _). cbn [ps_segs map app] in Hhops.
     assert (Hsig : hop_sigs p = map sig (flat_map edge_hops (so_edges s))).
     { unfold hop_sigs. rewrite Hsegs, !flat_map_concat, Hhops. reflexivity. }
-    rewrite Hsig, Hpc. rewrite <- C2 in Hcur.
+    rewrite Hsig, Hpc. rewrite C2 in Hcur.
     exact (sol_cost_sigs (cores ++ non_cores) s src dst Hd (conj Hfull Hws) Hmem C1 Hcur Hlen Hcost). }
   intros x y Hx Hy Hxy. pose proof (Hone x Hx) as H1. pose proof (Hone y Hy) as H2. rewrite Hxy in H1. lia.
 Qed.
